@@ -80,12 +80,20 @@ func (e *Engine) registerSyncExterns(reg regFn) {
 			x.obligeAt(st, fr, "lock-self-deadlock", pos, "", not(st.ghostRead(g, k)))
 			// blocking rule: either nothing is held, or the mutex is in an object allocated after function entry (unpublished)
 			fresh := "false"
-			if args[0].Addr != nil && args[0].Addr.Kind == AObj {
-				a0 := st.heap0[allocHeap]
-				if a0 == "" {
-					a0 = e.d.symbol("H0_", allocHeap)
+			if a := args[0].Addr; a != nil {
+				loc := ""
+				if a.Kind == AObj {
+					loc = a.Loc
+				} else if a.Kind == ALocal {
+					loc = st.promoted[a.Cell]
 				}
-				fresh = "(not (select " + a0 + " " + args[0].Addr.Loc + "))"
+				if loc != "" {
+					a0 := st.heap0[allocHeap]
+					if a0 == "" {
+						a0 = e.d.symbol("H0_", allocHeap)
+					}
+					fresh = "(not (select " + a0 + " " + loc + "))"
+				}
 			}
 			x.obligeAt(st, fr, "lock-while-holding", pos, "", or("(= "+st.lockCountTerm()+" 0)", fresh))
 			st.ghostWrite(g, k, "true")
@@ -166,6 +174,77 @@ func (e *Engine) registerSyncExterns(reg regFn) {
 		put(st, m, args[1].T, "", false)
 		return one(st, Val{})
 	}, "gh:$smhas")
+	reg("sync.(*Map).Range", "sync.Map.Range(f): calls f once for every entry present, in arbitrary order, until f returns false; verified as a loop over an arbitrary set of visited keys with the invariant given by the caller's 'rangeinv' clauses",
+		func(x *Exec, st *State, fr *frame, c *ssa.CallCommon, args []Val, pos token.Pos) []callOut {
+			e := x.e
+			m := st.name("sm", "Int", e.objKey(st, args[0]))
+			f := args[1]
+			if f.Clo == nil {
+				x.fail(st, "range-func", "callback is not a closure literal")
+				return nil
+			}
+			ct := e.contracts[e.shortName(fr.fn)]
+			var invs []Clause
+			if ct != nil {
+				invs = ct.RangeInv
+			}
+			vsort := "(Array Iface Bool)"
+			check := func(s *State, phase string) {
+				ctx := x.localCtx(s, fr, nil)
+				for i, cl := range invs {
+					t, err := x.evalClause(s, ctx, cl)
+					if err != nil {
+						x.errs = append(x.errs, err.Error())
+						t = "false"
+					}
+					x.oblige(s, fr.fn, "rangeinv-"+phase, clauseName("rangeinv", i, cl), t)
+				}
+			}
+			assumeInv := func(s *State) {
+				ctx := x.localCtx(s, fr, nil)
+				for _, cl := range invs {
+					if t, err := x.evalClause(s, ctx, cl); err == nil {
+						s.assume(t)
+					}
+				}
+			}
+			// entry: nothing visited
+			st.heapTerm("gh:$visited", vsort)
+			st.setHeap("gh:$visited", vsort, "((as const (Array Iface Bool)) false)")
+			check(st, "entry")
+			ms := newModSet()
+			ms.union(e.modset(f.Clo.Fn, nil))
+			ms.heaps["gh:$visited"] = true
+			// body: arbitrary iteration
+			body := st.clone()
+			body.havocSet(ms)
+			assumeInv(body)
+			V := body.heapTerm("gh:$visited", vsort)
+			k := body.fresh("rk", types.NewInterfaceType(nil, nil))
+			hid, hs := smHas(body)
+			vid, vs := smVal(body)
+			body.assume("(select (select " + body.heapTerm(hid, hs) + " " + m + ") " + k.T + ")")
+			body.assume("(not (select " + V + " " + k.T + "))")
+			v := Val{T: "(select (select " + body.heapTerm(vid, vs) + " " + m + ") " + k.T + ")", Ty: types.NewInterfaceType(nil, nil)}
+			body.note("Range: one iteration")
+			stops := false
+			for _, o := range x.callFunc(body, fr.clone(), f.Clo.Fn, f.Clo.Bindings, []Val{k, v}, c, pos) {
+				if o.val.T != "true" {
+					stops = true
+				}
+				o.st.setHeap("gh:$visited", vsort, "(store "+V+" "+k.T+" true)")
+				check(o.st, "preserve")
+			}
+			// after the loop
+			st.havocSet(ms)
+			assumeInv(st)
+			if !stops {
+				V2 := st.heapTerm("gh:$visited", vsort)
+				st.assume("(forall ((k Iface)) (! (=> (select (select " + st.heapTerm(hid, hs) + " " + m + ") k) (select " + V2 + " k)) :pattern ((select " + V2 + " k))))")
+			}
+			st.note("Range: done")
+			return one(st, Val{})
+		}, "gh:$visited")
 	reg("sync.(*Once).Do", "sync.Once.Do(f): runs f if it has not run before (both cases explored)", func(x *Exec, st *State, fr *frame, c *ssa.CallCommon, args []Val, pos token.Pos) []callOut {
 		s2 := st.clone()
 		s2.note("Once.Do: already done")
